@@ -130,7 +130,9 @@ func simCall(fn string, args ...ast.Expr) *ast.CallExpr {
 	}
 }
 
-func simStmt(fn string, args ...ast.Expr) *ast.ExprStmt { return &ast.ExprStmt{X: simCall(fn, args...)} }
+func simStmt(fn string, args ...ast.Expr) *ast.ExprStmt {
+	return &ast.ExprStmt{X: simCall(fn, args...)}
+}
 
 func lit(s string) ast.Expr { return &ast.BasicLit{Kind: token.STRING, Value: fmt.Sprintf("%q", s)} }
 
